@@ -1703,7 +1703,7 @@ Lemma F26_witness :
   /\ attr_of "Size" (describe_fx none_fixed lib_yes (fun x => x) CSsh1 (KRsa f26_n 65537) meta0) = Some (bs "2048 bits")
   /\ attr_of "Size" (describe_fx none_fixed lib_yes (fun x => x) CPkcs1Pub (KRsa f26_n 65537) meta0) = Some (bs "2047 bits")
   /\ attr_of "Size" (describe lib_yes (fun x => x) CSsh1 (KRsa f26_n 65537) meta0) = Some (bs "2047 bits").
-Proof. repeat split; vm_compute; reflexivity. Qed.
+Proof. repeat (match goal with |- _ /\ _ => split end); vm_compute; reflexivity. Qed.
 
 (* F27 / N1: the PPK KDF line said MB, and was shown for version-2 files that store no KDF *)
 Definition meta_ppk3 : meta :=
